@@ -8,6 +8,7 @@ import (
 	"math"
 	"path"
 	"path/filepath"
+	"strings"
 
 	"reduction.dev/reduction/dkv/recovery"
 	"reduction.dev/reduction/proto/snapshotpb"
@@ -106,6 +107,19 @@ func parseDKVURI(uri string) (opID, base string, err error) {
 
 // Create a URL safe encoding to create a path segment. Lexicographic order will
 // be descending such that later checkpoints will appear first in a file list.
+// idFromSnapshotFileName inverts "job-" + pathSegment(id) + ".snapshot".
+func idFromSnapshotFileName(name string) (uint64, bool) {
+	segment, ok := strings.CutPrefix(strings.TrimSuffix(name, ".snapshot"), "job-")
+	if !ok {
+		return 0, false
+	}
+	buf, err := base64.RawURLEncoding.DecodeString(segment)
+	if err != nil || len(buf) != 8 {
+		return 0, false
+	}
+	return math.MaxUint64 - binary.BigEndian.Uint64(buf), true
+}
+
 func pathSegment(id uint64) string {
 	reversed := math.MaxUint64 - id
 	buf := make([]byte, 8)
